@@ -182,14 +182,22 @@ def hashseed_results(sets, ctx):
     with open(path, 'w', encoding='utf-8') as f:
         json.dump(sets, f, ensure_ascii=True)
     res = {}
-    for hs in HASH_SEEDS:
+    rpath = os.path.join(d, 'sets-reversed.json')
+    with open(rpath, 'w', encoding='utf-8') as f:
+        json.dump(list(reversed(sets)), f, ensure_ascii=True)
+    for (k, hs) in enumerate(HASH_SEEDS):
         env = dict(os.environ, PYTHONHASHSEED=hs)
-        r = subprocess.run([sys.executable, '-m', 'tv.hashseed_helper', path],
+        # every other interpreter works through the sets in reverse order:
+        # what one call leaves behind for the next must not matter either
+        r = subprocess.run([sys.executable, '-m', 'tv.hashseed_helper',
+                            rpath if k % 2 else path],
                            env=env, stdout=subprocess.PIPE,
                            stderr=subprocess.PIPE, text=True, timeout=1800)
         if r.returncode != 0:
             raise RuntimeError('hashseed helper failed: ' + r.stderr[-500:])
         res[hs] = json.loads(r.stdout)
+        if k % 2:
+            res[hs].reverse()
     return res
 
 
@@ -204,7 +212,8 @@ def judge_hashseed(s, per_seed):
             if v != base.get(k):
                 out.violate('same-result-under-any-hash-seed', k.split('/')[0],
                             '%s: PYTHONHASHSEED=%s gave %r, PYTHONHASHSEED=%s '
-                            'gave %r for examples %r'
+                            '(sets extracted in the opposite order) gave %r '
+                            'for examples %r'
                             % (k, HASH_SEEDS[0], base.get(k), hs, v,
                                s['examples'][:12]))
                 return out
